@@ -298,7 +298,8 @@ class CSSPageRule(cssrule.CSSRuleRules):
         super()._setCssText(cssText)
 
         tokenizer = self._tokenize2(cssText)
-        if self._type(self._nexttoken(tokenizer)) != self._prods.PAGE_SYM:
+        attoken = self._nexttoken(tokenizer)
+        if self._type(attoken) != self._prods.PAGE_SYM:
             self._log.error(
                 'CSSPageRule: No CSSPageRule found: %s' % self._valuestr(cssText),
                 error=xml.dom.InvalidModificationErr,
@@ -348,6 +349,7 @@ class CSSPageRule(cssrule.CSSRuleRules):
                 newStyle.cssText = styletokens
 
             if ok:
+                self.atkeyword = self._tokenvalue(attoken)
                 self._selectorText = newselseq
                 self._specificity = specificity
                 self.style = newStyle
